@@ -90,6 +90,28 @@ def writeSorted (ds : DS) (nd : NewData) (sortP : Bool) : Except String DS := do
   let ds2 : DS := { ds1 with refs := stableSortBy (fun r => rank r.dir) ds1.refs }
   if sortP then sortPartNames ds2 else pure ds2
 
+/-- the edit operations of the property (the driver parses the harness's lines into these) -/
+inductive Op where
+  | write (nd : NewData)                          -- fresh `write(..., file_scheme='hive')`
+  | append (nd : NewData)                         -- `write(..., append=True)`
+  | overwrite (nd : NewData) (sortP : Bool)       -- `write(..., append='overwrite')`
+  | remove (idxs : List Nat) (sortP : Bool)       -- `remove_row_groups`
+  | writeSorted (nd : NewData) (sortP : Bool)     -- `write_row_groups(sort_key=…, sort_pnames=…)`
+  | sortNames                                     -- `_sort_part_names()`
+  deriving Repr
+
+def empty : DS := { files := [], refs := [] }
+
+def step (ds : DS) : Op → Except String DS
+  | .write nd => .ok (addNew empty nd)
+  | .append nd => .ok (addNew ds nd)
+  | .overwrite nd sp => overwrite ds nd sp
+  | .remove idxs sp => removeRGs ds idxs sp
+  | .writeSorted nd sp => writeSorted ds nd sp
+  | .sortNames => sortPartNames ds
+
+def run (ds : DS) (ops : List Op) : Except String DS := ops.foldlM step ds
+
 /-- metadata and directory agree -/
 def agree (ds : DS) : Bool :=
   ds.refs.all (fun r => ds.getFile (r.dir, r.id) == some r.rows) &&
